@@ -151,7 +151,10 @@ func overlappingStabilizeRounds(seed int64, rounds int) (problem string, replay 
 		}
 		return ids
 	}
-	for i := 0; i < rounds; i++ {
+	// bounded by the round count; the wall-clock cap only keeps a loaded machine or the race
+	// detector from eating the whole budget (the evidence reports the rounds actually run)
+	t0 := time.Now()
+	for i := 0; i < rounds && (i%1024 != 0 || time.Since(t0) < 4*time.Minute); i++ {
 		older, newer := genView(), genView()
 		workers := 2 + rng.Intn(2)
 		spins := make([]int, workers)
